@@ -242,6 +242,36 @@ func genC10(r *Rng, e *Emitter, n int) {
 		e.tally("mode=two-grid-unimodular")
 		emit(p[0], p[1], p[2])
 	}
+	// off the line by a second-order amount: p0 = (-d, 0), p1 = (q, q), p2 = (fl(d*d/q), d) — the exact
+	// point of the line at height d is (d*d/q, d), and p2 misses it by the rounding of d*d alone (a
+	// 2^-53 part of a number that is itself 10^-36 and less); reflected, swapped, in every order
+	for i := 0; i < n/16+4; i++ {
+		m := float64(int64(1)<<52 + r.Int63n(int64(1)<<52))
+		d := math.Ldexp(m, -52-(40+r.Intn(90)))
+		q := []float64{0.5, 1, 2, 4}[r.Intn(4)]
+		x2 := d * d / q
+		if x2 == 0 || r.chance(1, 8) {
+			continue
+		}
+		pts := [3][2]float64{{-d, 0}, {q, q}, {x2, d}}
+		if r.chance(1, 2) { // one ulp either way: still not collinear, on a known side
+			pts[2][0] = ulps(x2, 1-2*r.Intn(2))
+		}
+		sx, sy := float64(1-2*r.Intn(2)), float64(1-2*r.Intn(2))
+		swap := r.chance(1, 2)
+		var cs [3]geom.Coord
+		for k := range pts {
+			x, y := sx*pts[k][0], sy*pts[k][1]
+			if swap {
+				x, y = y, x
+			}
+			cs[k] = geom.Coord{x, y}
+		}
+		perms := [][3]int{{0, 1, 2}, {1, 2, 0}, {2, 0, 1}, {1, 0, 2}, {0, 2, 1}, {2, 1, 0}}
+		p := perms[r.Intn(6)]
+		e.tally("mode=second-order-off-line")
+		emit(cs[p[0]], cs[p[1]], cs[p[2]])
+	}
 	for i := 0; i < n; i++ {
 		scale := r.Intn(5)
 		extra := r.Intn(3) // extra ordinates beyond X,Y are arbitrary
